@@ -402,3 +402,7 @@ def run(ctx):
     r17_3(ctx)
     r17_4(ctx)
     ctx.floor('R17.4', 3)
+    # R17.5 = C16/R16.7 on the loader: a value looked up in the loaded image is tested before it is used
+    from .C16 import r16_7
+    r16_7(ctx, only=(LOADER, 'yr_rules_load_stream', 'yr_rules_load', 'yr_rules_from_arena'), rule='R17.5')
+    ctx.floor('R17.5', 2)
